@@ -15,6 +15,7 @@ RULE = ("(1) prefix consistency: every generated program s1..sn is also run cut 
         "reference/_index.md (read at run time) as `let <w> = 1;`, `constraint <w> = 1;`, as a function parameter "
         "binding, and duplicate lets at top level and inside module bodies must fail. distinct = distinct program "
         "texts; non-trivial = >= 2 statements.")
+RULE += (" " + 'Also: every pairing of the two binding statements (let, constraint) on one name - adjacent, apart, used in between, in module bodies - must fail, the same names in different scopes must build; duplicate parameter names must fail.')
 
 INDEX_MD = os.path.join(core.REPO, "docsite/site/content/reference/_index.md")
 
